@@ -1482,6 +1482,11 @@ class Machine:
         if isinstance(t, ast.Name):
             self.locals[t.id] = v
         elif isinstance(t, (ast.Tuple, ast.List)):
+            if isinstance(v, Ref) and v.kind == "list":
+                n = self.heap[(v.id, "len")]
+                if self.branch(n != len(t.elts)):
+                    raise PyRaise("ValueError")
+                v = tuple(z3.simplify(self.heap[(v.id, "arr")][i]) for i in range(len(t.elts)))
             if not isinstance(v, tuple) or len(v) != len(t.elts):
                 raise Unsupported("tuple unpacking of %r" % (v,))
             for e, x in zip(t.elts, v):
